@@ -20,6 +20,8 @@ GUARD = "GUANZHI_GMSSL_VERIF"
 NCPU = int(os.environ.get("VERIF_NCPU", "16"))
 MEM_KB = int(os.environ.get("VERIF_MEM_KB", str(12 * 1024 * 1024)))   # ulimit -v per cbmc
 WORKROOT = os.path.join(VERIF, ".work")
+# mutant / seeded runs (VERIF_REPO set) write their evidence and replays elsewhere so that committed evidence stays that of /repo
+OUTROOT = os.environ.get("VERIF_OUT", VERIF)
 
 CBMC_CHECKS = ["--bounds-check", "--pointer-check", "--pointer-overflow-check",
                "--div-by-zero-check", "--conversion-check", "--undefined-shift-check"]
@@ -646,7 +648,7 @@ def check(prop, tier, pat=None, keep=False):
     for o, new in violations:
         j = byname[o["job"]]
         cex = o.get("cex") or {}
-        dest = os.path.join(VERIF, "replay", prop, o["job"])
+        dest = os.path.join(OUTROOT, "replay", prop, o["job"])
         shutil.rmtree(dest, ignore_errors=True)
         path, reproduced, text = native_replay(j, cex, dest, new[0])
         suffix = ""
@@ -734,8 +736,8 @@ def write_evidence(prop, tier, jobs, outs, n_obl, n_dis, bounded_jobs, known_hit
         "wall_s": round(wall, 2),
         "violations": len(violations),
     }
-    os.makedirs(os.path.join(VERIF, "evidence"), exist_ok=True)
-    json.dump(ev, open(os.path.join(VERIF, "evidence", prop + ".json"), "w"), indent=1)
+    os.makedirs(os.path.join(OUTROOT, "evidence"), exist_ok=True)
+    json.dump(ev, open(os.path.join(OUTROOT, "evidence", prop + ".json"), "w"), indent=1)
 
 
 # --------------------------------------------------------------------------- CLI
